@@ -92,6 +92,15 @@ ScmpLayout(d) ==
   ELSE LET sm == ScmpMsgLayout(PayloadAvail(d), d.st) IN
        IF ~sm.ok THEN sm ELSE Ok(r.size)
 
+(* ScmpPayloadView::dst_port on an SCMP ERROR message: the quoted (offending) packet is parsed as a SCION    *)
+(* packet and, if its next header is UDP and a UDP header is there, the quoted source port is returned.      *)
+(* qd = descriptor of the quote (len = quoted bytes present), nh = the quote's next-header byte.             *)
+ScmpErrFixed(st) == CASE st \in {1, 2, 4} -> 8 [] st = 5 -> 20 [] st = 6 -> 28 [] OTHER -> 0
+QuoteHasPort(qd, nh) ==
+  LET h == HdrLayout(qd) IN
+  /\ h.ok /\ nh = 17
+  /\ UdpDgramLayout(Min2(qd.pl, qd.len - h.size), qd.ul).ok
+
 (* stand-alone views *)
 StdPathLayout(n, s0, s1, s2) ==
   IF n < 4 THEN Err("StdPathMeta")
